@@ -15,24 +15,26 @@ real output from the harness's list of injected faults (item extents), independe
 import os, re, shutil, time
 from concurrent.futures import ThreadPoolExecutor
 import lib
-from translators import c12_name_checks
+from translators import c12_name_checks, c12_line_reader
 
 META = dict(
     id='C12',
     level='proof',
     technique='Coq proof (the per-line reader state machine with error_flag, include counters, the exit-status mapping regenerated from main.cc and the option precedence regenerated from session.cc, proved to report exactly one located message per invalid item) + differential correspondence of the extracted model against ledger',
-    level_text='Theorems in coq/Properties/Properties_C12.v state, for all files of any length and include nesting, that the model of instance_t::parse / read_next_directive / the block loops / include_directive writes exactly the concatenation, in file order, of one located message per invalid item (none for a valid item; an invalid item never hides a later one), that the location lies inside the item, that the error count equals the number of messages with include counts added to the parent, that a report is written iff the count is zero, that valid input is silent with status 0, that with several -f files every file is read and every invalid item of every file gets its message (counts summed), that the exit status (main.cc mapping regenerated on every run into coq/Gen/StatusOfCount.v) is non-zero iff the count is positive, and that under --pedantic without --permissive (precedence chain regenerated from session.cc into coq/Gen/CheckingStyle.v) every undeclared account, commodity, tag and (with --check-payees) payee is a counted error whatever else is set, a warning under --strict alone, quiet otherwise. The model is tied to the code by reading thousands of generated journals with 0-512 injected faults (unbalanced, bad date, bad amount, failed assertion, unknown account/commodity/tag/payee, stray and malformed directives; first/last/adjacent/inside includes) under every subset of --strict --pedantic --permissive --check-payees (command line, init file, environment) in both and comparing every message location, include chain, class, line range, count, status and stdout emptiness.',
+    level_text='Theorems in coq/Properties/Properties_C12.v state, for all files of any length and include nesting, that the model of instance_t::parse / read_next_directive / the block loops / include_directive writes exactly the concatenation, in file order, of one located message per invalid item (none for a valid item; an invalid item never hides a later one), that the location lies inside the item, that the error count equals the number of messages with include counts added to the parent, that a report is written iff the count is zero, that valid input is silent with status 0, that with several -f files every file is read and every invalid item of every file gets its message (counts summed), that the exit status (main.cc mapping regenerated on every run into coq/Gen/StatusOfCount.v) is non-zero iff the count is positive, and that under --pedantic without --permissive (precedence chain regenerated from session.cc into coq/Gen/CheckingStyle.v) every undeclared account, commodity, tag and (with --check-payees) payee is a counted error whatever else is set, a warning under --strict alone, quiet otherwise; and (Model/ErrorsReader.v, facts regenerated from read_line / comment_directive / parse into coq/Gen/LineReader.v) that a `comment` / `test` block moves the line counter by exactly the number of its physical lines - empty ones included - and changes nothing else, so that a file with comment blocks writes what the same file with the blocks replaced by a valid one-line item and empty lines writes (all theorems carry over), that a byte-order mark is transparent iff it is tested against line 1 (refuted for the source as it stands: F1201) and that an over-long line is located at itself and hides nothing iff it is counted before the throw and skipped after it (refuted as it stands: F1202). The model is tied to the code by reading thousands of generated journals with 0-512 injected faults (unbalanced, bad date, bad amount, failed assertion, unknown account/commodity/tag/payee, stray and malformed directives; first/last/adjacent/inside includes) under every subset of --strict --pedantic --permissive --check-payees (command line, init file, environment) in both and comparing every message location, include chain, class, line range, count, status and stdout emptiness.',
     level_note='Trusted: Coq kernel; extraction + OCaml driver and the python harness for the correspondence; the translator pattern for the status expression in main.cc. The model receives the classification of each line (which error class parsing it throws) from the harness: that a given malformed date/amount/account is rejected by the date/amount/account code is observed through the correspondence check, not proved. Unknown payees are faults only with --check-payees (ledger documents payee checking as opt-in).',
     design_ref='DESIGN.md section 7 C12, section 3.2 (status table)',
     assumptions=['a declaration or posting written inside `apply account ROOT` (or under --master-account ROOT) names the account ROOT:NAME; commodity, tag and payee directives are not affected by the block',
                  'an unknown payee counts as invalid under --pedantic only together with --check-payees (documented opt-in)',
                  'indented lines that follow an invalid item without an intervening unindented line count as part of that item',
-                 'files end with a newline or with a non-blank last line; lines are shorter than MAX_LINE'],
+                 'files end with a newline or with a non-blank last line; a line longer than the reader\'s line buffer (MAX_LINE) is an invalid item of its own (ledger documents the limit by refusing it)',
+                 'a UTF-8 byte-order mark at the start of a file is not part of its first line',
+                 'nothing between `comment` / `test` and the next line starting with `end comment` / `end test` is an item'],
 )
 
-K_STRAY, K_UNBAL, K_DATE, K_AMOUNT, K_ASSERT, K_ACCOUNT, K_COMMODITY, K_PAYEE, K_OTHER, K_TAG = 0, 1, 2, 3, 4, 5, 6, 7, 8, 9
+K_STRAY, K_UNBAL, K_DATE, K_AMOUNT, K_ASSERT, K_ACCOUNT, K_COMMODITY, K_PAYEE, K_OTHER, K_TAG, K_LONG = 0, 1, 2, 3, 4, 5, 6, 7, 8, 9, 10
 KNAME = {0: 'stray-indented-line', 1: 'unbalanced', 2: 'bad-date', 3: 'bad-amount', 4: 'failed-assertion',
-         5: 'unknown-account', 6: 'unknown-commodity', 7: 'unknown-payee', 8: 'bad-directive', 9: 'unknown-tag'}
+         5: 'unknown-account', 6: 'unknown-commodity', 7: 'unknown-payee', 8: 'bad-directive', 9: 'unknown-tag', 10: 'line-too-long'}
 OPTS = ['strict', 'pedantic', 'permissive', 'check_payees']
 FLAG = {'strict': '--strict', 'pedantic': '--pedantic', 'permissive': '--permissive', 'check_payees': '--check-payees'}
 ENVV = {'strict': 'LEDGER_STRICT', 'pedantic': 'LEDGER_PEDANTIC', 'permissive': 'LEDGER_PERMISSIVE', 'check_payees': 'LEDGER_CHECK_PAYEES'}
@@ -59,6 +61,16 @@ def name_check_facts():
     if lib.REPO not in _FACTS:
         _FACTS[lib.REPO] = c12_name_checks.facts(lib.REPO)
     return _FACTS[lib.REPO]
+
+
+def line_reader_facts():
+    """what the source under test does with a byte-order mark and with an over-long line (the
+    facts the translator writes into coq/Gen/LineReader.v); used only to decide which generated
+    inputs are safe to build on, never by the oracle"""
+    key = ('reader', lib.REPO)
+    if key not in _FACTS:
+        _FACTS[key] = c12_line_reader.facts(lib.REPO)
+    return _FACTS[key]
 
 
 def doc_style(o):
@@ -117,6 +129,8 @@ def classify(text):
         return K_AMOUNT
     if 'requires an argument' in text or 'File to include was not found' in text:
         return K_OTHER
+    if text.startswith('Line exceeds'):
+        return K_LONG
     return 99
 
 
@@ -140,6 +154,7 @@ class Entry:
         self.fin_only = False
         self.form = None              # the written form exercised (form_xact)
         self.unchecked = None         # an undeclared commodity in a position ledger does not check
+        self.comment = None           # a `comment` / `test` block: (closed, [kind of each swallowed line: 'e' | 'w' | 't'])
 
 
 class JFile:
@@ -147,6 +162,7 @@ class JFile:
         self.name = name              # file name inside the case directory
         self.entries = []
         self.final_newline = True
+        self.bom = False              # the file starts with EF BB BF
 
 
 class Builder:
@@ -170,11 +186,14 @@ class Builder:
         self.nuniq = 0
         self.files = []                       # every JFile
         self.valid_xacts = 0
+        self.comment_rate = 0.0               # chance of a comment block in front of an item
+        self.long_lines = False               # over-long lines among the items
+        self.no_bank = False                  # transactions stay away from the asserted account
 
     def effective(self):
         """defects that are errors under these options"""
         return [d for d in DEFECTS if doc_reaction(self.opts, d) == 'error'
-                and (d != 'balassert' or self.full(BANK) in self.declared)]
+                and (d != 'balassert' or (self.full(BANK) in self.declared and not self.no_bank))]
 
     def harmless(self):
         return [d for d in DEFECTS if doc_reaction(self.opts, d) != 'error']
@@ -302,7 +321,7 @@ class Builder:
         if self.extra_comms and 'commodity' not in d and 'balassert' not in d and rng.random() < 0.12:
             altcomm = rng.choice(self.extra_comms)     # a commodity declared inside some `apply account` block
         bank_name = self.full(BANK)
-        can_bank = 'commodity' not in d and 'tag' not in d and bank_name in self.declared and not altcomm
+        can_bank = 'commodity' not in d and 'tag' not in d and bank_name in self.declared and not altcomm and not self.no_bank
         if not can_bank:
             d.discard('balassert')
         use_bank = can_bank and (rng.random() < 0.6 or 'balassert' in d)
@@ -625,6 +644,45 @@ class Builder:
         lines = [('payee Vendor %d' % self.uniq(), ['i', [], 1, []]), ('    alias', ['s', K_OTHER])]
         return Entry(lines, faults=[K_OTHER], tag='dir')
 
+    COMMENT_HEADS = ['comment', 'comment', 'test', 'test reg --columns=80', '!comment', '@test bal', 'comment   ']
+    COMMENT_ENDS = ['end comment', 'end comment', 'end test', 'end comment and more words', 'end commentary', 'end test  ']
+    COMMENT_TEXT = ['; a note inside', 'free text, not a directive', '    Expenses:Food  $10.00', '2020/13/45 Not a date',
+                    '2020/01/01 Never balanced', '    Assets:Cash  $1.00', 'include nowhere.dat', 'end', ' end comment', '\tend test',
+                    'End comment', 'endcomment', 'end  comment', 'end apply account', 'account Some:Thing', 'Y', '= /x/', 'P 2020/99/99 EUR $1',
+                    'comment', 'test nested']
+
+    def comment_block(self, closed=True, blanks=None):
+        """a `comment` / `test` block.  Nothing inside it is an item, whatever it looks like; it
+        ends at the first line that STARTS with `end comment` or `end test` (either closes either),
+        or with the file.  Its lines are physical lines of the file like any other."""
+        rng = self.rng
+        n = rng.choice([0, 1, 2, 3, 5, 8])
+        kinds = [rng.choice('eeeewtttt') for _ in range(n)]
+        if blanks:
+            for _ in range(blanks):
+                kinds.insert(rng.randrange(len(kinds) + 1), 'e')
+        lines = [(rng.choice(self.COMMENT_HEADS), ['i', [], 0, []])]
+        for k in kinds:
+            if k == 'e':
+                lines.append(('', 'e'))
+            elif k == 'w':
+                lines.append((rng.choice(['  ', '\t', '    ']), 'w'))
+            else:
+                lines.append((rng.choice(self.COMMENT_TEXT), ['ct']))
+        if closed:
+            lines.append((rng.choice(self.COMMENT_ENDS), ['ct']))
+        e = Entry(lines, tag='comment')
+        e.comment = (closed, kinds)
+        return e
+
+    def long_line(self):
+        """an unindented line that does not fit the reader's line buffer (MAX_LINE = 4096): ledger
+        refuses it (documented limit), so it is an invalid item of its own, one physical line long"""
+        rng = self.rng
+        n = rng.choice([4200, 5000, 8191, 8192, 9000, 20000])
+        text = rng.choice(['; ', '2020/01/01 ', 'account X', '# ']) + 'x' * n
+        return Entry([(text, 'long')], faults=[K_LONG], tag='long')
+
     def stray(self):
         n = self.rng.choice([1, 1, 2, 3])
         ind = self.rng.choice(['    ', '    ', ' ', '\t'])
@@ -668,6 +726,13 @@ def fill_file(b, rng, f, plan, depth, decls=False):
     if decls:
         f.entries += b.declarations()
     plan = wrap_blocks(rng, plan, 2 - (len(b.prefix) - b.base_depth))
+    if b.comment_rate:
+        # comment blocks anywhere: first, last, adjacent, between and in front of invalid items
+        for _ in range(sum(1 for _ in range(3) if rng.random() < b.comment_rate)):
+            plan.insert(rng.randrange(len(plan) + 1), 'c')
+    if b.long_lines and rng.random() < 0.7:
+        plan.insert(rng.randrange(len(plan) + 1), 'L')
+    open_comment = bool(b.comment_rate) and rng.random() < b.comment_rate / 4
     prev_faulty = False        # error_flag may still be set (no unindented line since an invalid item)
     if rng.random() < 0.06:
         # an indented line before any head
@@ -686,7 +751,16 @@ def fill_file(b, rng, f, plan, depth, decls=False):
             f.entries += b.open_block() if what == 'A' else b.close_block()
             prev_faulty = False
             continue
-        if what == 'i':
+        if what == 'L':
+            if not f.entries or not f.entries[-1].filler or f.entries[-1].lines[-1][1] != 'e':
+                f.entries.append(b.filler())   # (an item of its own: not glued to the one before)
+            f.entries.append(b.long_line())
+            prev_faulty = True
+            continue
+        if what == 'c':
+            f.entries.append(b.comment_block(blanks=rng.choice([0, 1, 1, 2, 4])))
+            prev_faulty = False
+        elif what == 'i':
             child = b.new_file()
             sub = plan_for(rng, rng.choice([0, 1, 2, 3, 5]), rng.choice([0, 0, 1, 1, 2, 3]), depth + 1)
             if rng.random() < 0.1:
@@ -719,7 +793,10 @@ def fill_file(b, rng, f, plan, depth, decls=False):
                 s.faults = []
             f.entries.append(s)
             prev_faulty = True
-    if rng.random() < 0.3:
+    if open_comment:
+        # a block that nothing closes swallows the rest of the file
+        f.entries.append(b.comment_block(closed=False, blanks=rng.choice([0, 1, 2])))
+    elif rng.random() < 0.3:
         f.entries.append(b.filler())
     if rng.random() < 0.08 and f.entries and f.entries[-1].lines[-1][1] not in ('e', 'w'):
         f.final_newline = False
@@ -784,7 +861,7 @@ def gen_opts(rng):
     return o, src
 
 
-def build_case(rng, idx, nfault=None, opts=None, multi=None):
+def build_case(rng, idx, nfault=None, opts=None, multi=None, comments=None, long_lines=False, bom=False):
     c = Case()
     c.idx = idx
     if opts is None:
@@ -796,6 +873,11 @@ def build_case(rng, idx, nfault=None, opts=None, multi=None):
     c.master = rng.choice(['Main', 'Household']) if (nfault is None and rng.random() < 0.1) else None
     b = Builder(rng, c.opts, c.master)
     b.base_depth = len(b.prefix)
+    b.comment_rate = comments if comments is not None else rng.choice([0, 0, 0, 0.15, 0.4])
+    b.long_lines = long_lines
+    # (what ledger skips after an over-long line, or with a first line it does not recognise, must not be
+    # something later items depend on: no running balance to keep track of in those journals)
+    b.no_bank = long_lines or bom
     nroots = multi if multi is not None else (rng.choice([2, 2, 3]) if rng.random() < 0.06 else 1)
     c.roots = []
     for r in range(nroots):
@@ -838,6 +920,8 @@ def build_case(rng, idx, nfault=None, opts=None, multi=None):
         c.roots.append(root)
     c.files = b.files
     c.valid_xacts = b.valid_xacts
+    if bom:
+        mark_bom(rng, c)
     c.cmd = list(rng.choice(COMMANDS))
     if getattr(b, 'used_virtual', False) and c.cmd == ['reg', '-M']:
         c.cmd = ['reg']        # (subtotalled reports refuse real and virtual postings to one account: filters.cc:931)
@@ -845,11 +929,40 @@ def build_case(rng, idx, nfault=None, opts=None, multi=None):
     return c
 
 
+def bom_eligible(f):
+    """the first line may be lost to a reader that does not know the mark without changing what
+    any OTHER item means: a directive or the head of a valid plain transaction.  (Lines of two
+    words or more: a first line of one word, with the mark glued to it, is refused by name as a
+    directive lacking its argument - another path, which the model does not describe.)"""
+    if not f.entries:
+        return False
+    e = f.entries[0]
+    if e.filler or len(e.lines[0][0].split()) < 2:
+        return False
+    if e.faults or e.warns or e.unchecked or e.form or e.comment or e.child is not None:
+        return False
+    nxt = [x for x in f.entries[1:] if not x.filler]
+    if nxt and nxt[0].tag == 'stray':
+        return False               # (it would be swallowed by the error the lost head line causes)
+    return e.tag in ('dir', 'xact') and not any(BANK in t for t, _ in e.lines)
+
+
+def mark_bom(rng, c):
+    """put a UTF-8 byte-order mark in front of some of the files (the journal files of a text
+    editor on Windows start with one; it is no part of the first line)"""
+    ok = [f for f in c.files if bom_eligible(f)]
+    for f in ok:
+        if rng.random() < 0.85:
+            f.bom = True
+
+
 def fill_plain(b, rng, f, plan):
     """items separated by blank lines or adjacent; no extra strays/includes (exact fault count)"""
     for what in plan:
         if rng.random() < 0.5:
             f.entries.append(b.filler())
+        if rng.random() < b.comment_rate / 3:
+            f.entries.append(b.comment_block(blanks=rng.choice([0, 1, 2, 4])))
         f.entries.append(faulty_item(b, rng) if what == 'f' else valid_item(b, rng))
 
 
@@ -857,20 +970,33 @@ def finish_case(c):
     """number the lines, derive the model's shape and the oracle's item list"""
     c.items = []         # dict(file, first, last, faults) - what the oracle knows
 
-    def walk(f):
+    c.bom_first = {}     # file with a byte-order mark -> (first, last) line of its first entry
+    c.comment_lines = {} # file -> set of the physical lines inside comment blocks (head and end marker included)
+
+    def walk(f, hidden):
         n = 0
-        shapes = []
+        shapes = ['bom'] if f.bom else []
         last_item = None       # the item the previous physical line belongs to
         prev_faulty = None     # the invalid item whose error_flag may still be set
+        blank_in_comments = 0  # empty lines inside the comment blocks read so far in this file
         for e in f.entries:
             e.first = n + 1
-            for text, shape in e.lines:
-                n += 1
-                if shape == 'inc':
-                    shapes.append(['inc', file_id(c, e.child)] + walk(e.child))
-                else:
-                    shapes.append(shape)
+            if e.comment is not None:
+                closed, kinds = e.comment
+                n += len(e.lines)
+                shapes.append(['cmt', 1 if closed else 0] + list(kinds))
+                c.comment_lines.setdefault(f.name, set()).update(range(e.first, n + 1))
+                blank_in_comments += sum(1 for k in kinds if k == 'e')
+            else:
+                for text, shape in e.lines:
+                    n += 1
+                    if shape == 'inc':
+                        shapes.append(['inc', file_id(c, e.child)] + walk(e.child, hidden))
+                    else:
+                        shapes.append(shape)
             e.last = n
+            if f.bom and e.first == 1:
+                c.bom_first[f.name] = (e.first, e.last)
             if e.filler:
                 # a whitespace-only line directly under an item is how ledger delimits the item:
                 # it is read as the item's last line
@@ -883,20 +1009,23 @@ def finish_case(c):
                 last_item = prev_faulty
                 continue
             it = dict(file=f.name, first=e.first, last=e.last, faults=list(e.faults), warns=list(e.warns), tag=e.tag,
-                      prefix=getattr(e, 'prefix', ''), form=e.form, unchecked=e.unchecked)
+                      prefix=getattr(e, 'prefix', ''), form=e.form, unchecked=e.unchecked,
+                      after_long=hidden, blank_comment_lines_above=blank_in_comments)
             c.items.append(it)
             last_item = it
             prev_faulty = it if e.faults else None
+            if e.tag == 'long':
+                hidden = True          # what follows an over-long line in this file (and in files included from there)
         return shapes
 
-    c.shapes = [['file', file_id(c, r)] + walk(r) for r in c.roots]
+    c.shapes = [['file', file_id(c, r)] + walk(r, False) for r in c.roots]
     c.texts = {}
     for f in c.files:
         lines = [text for e in f.entries for text, _ in e.lines]
         t = '\n'.join(lines)
         if lines and f.final_newline:
             t += '\n'
-        c.texts[f.name] = t
+        c.texts[f.name] = ('\ufeff' if f.bom else '') + t
     c.nfaults = sum(1 for it in c.items if it['faults'])
     order = [k for k in OPTS if c.src.get(k) == 'cmd']
     c.args = [FLAG[k] for k in order] + (['--master-account', c.master] if c.master else []) + c.cmd
@@ -981,8 +1110,8 @@ def invoke(cdir, files, roots, args, init, env):
     shutil.rmtree(cdir, ignore_errors=True)
     os.makedirs(cdir)
     for name, text in files.items():
-        with open(os.path.join(cdir, name), 'w') as fh:
-            fh.write(text)
+        with open(os.path.join(cdir, name), 'wb') as fh:
+            fh.write(text.encode('utf-8'))
     pre = []
     if init:
         ip = os.path.join(cdir, 'init.rc')
@@ -1014,7 +1143,7 @@ def run_case(ctx, c):
 
 
 # ---- oracle: the property text on ledger's real output ------------------------------------------
-def oracle(items, roots, status, out, msgs, nerr, stderr_text, opts, warns=(), base=None):
+def oracle(items, roots, status, out, msgs, nerr, stderr_text, opts, warns=(), base=None, extra=None):
     """items: what was injected (file, first, last, faults = classes that are errors under the
     options by their documented meaning, warns = classes that must be warned about).
     Returns [(key, desc, observed, required)]."""
@@ -1027,6 +1156,27 @@ def oracle(items, roots, status, out, msgs, nerr, stderr_text, opts, warns=(), b
     def inside(w, it):
         return w['file'] == it['file'] and w['line'] is not None and it['first'] <= w['line'] <= it['last']
 
+    extra = extra or {}
+    bom_first = extra.get('bom_first') or {}
+    comment_lines = extra.get('comment_lines') or {}
+    # a byte-order mark is no part of the first line: a valid first item stays valid.  Messages
+    # located in the valid first item of a file that starts with a mark are reported under one key
+    bom_msgs = []
+    for m in msgs:
+        r = bom_first.get(m['file'])
+        if r and m['line'] is not None and r[0] <= m['line'] <= r[1] and not any(inside(m, it) for it in faulty):
+            bom_msgs.append(m)
+    if bom_msgs:
+        m = bom_msgs[0]
+        v.append(('utf8-bom:error-on-valid-first-item',
+                  'the file %s starts with a UTF-8 byte-order mark and its first item (lines %d-%d) is valid, but ledger reports %r at line %s'
+                  % (m['file'], bom_first[m['file']][0], bom_first[m['file']][1], m['text'], m['line']),
+                  '%s:%s' % (m['file'], m['line']), 'no message: the mark is not part of the first line'))
+    # nothing inside a comment / test block is an item
+    for m in msgs:
+        if m['line'] in set(comment_lines.get(m['file']) or ()) and m not in bom_msgs:
+            v.append(('message-located-inside-comment-block', 'message %r at %s line %s points into a comment / test block'
+                      % (m['text'], m['file'], m['line']), '%s:%s' % (m['file'], m['line']), 'no message for the lines of a comment block'))
     # warnings: only --strict (without --pedantic / --permissive) warns, and then about every
     # undeclared name
     if style != 'warning' and warns:
@@ -1062,12 +1212,15 @@ def oracle(items, roots, status, out, msgs, nerr, stderr_text, opts, warns=(), b
                           'under --strict the undeclared commodity used as %s in %s lines %d-%d is accepted without a warning'
                           % (it['unchecked'], it['file'], it['first'], it['last']), 'no warning', 'a Warning: located in the item'))
     if not faulty:
-        if nerr or 'While parsing file' in stderr_text:
+        only_bom = bool(bom_msgs) and len(bom_msgs) == len(msgs) == nerr
+        if only_bom:
+            pass        # (reported above; the status follows from it)
+        elif nerr or 'While parsing file' in stderr_text:
             v.append(('clean-journal:error-message', 'a journal in which every item is valid (options: %s) produced an error message' % mode,
                       stderr_text[:300], 'no error message'))
         if not warns and stderr_text.strip() and not nerr:
             v.append(('clean-journal:stderr-output', 'a valid journal produced output on stderr', stderr_text[:300], 'empty stderr'))
-        if status != 0:
+        if status != 0 and not only_bom:
             v.append(('clean-journal:nonzero-status', 'a journal in which every item is valid exits non-zero', 'status=%s' % status, 'status 0'))
         if base is not None and base[0] == 0 and status == 0 and base[1] != out and not out.startswith(b'<?xml'):   # (xml lists commodity flags, incl. 'known')
             v.append(('report-depends-on-checking-options:' + mode, 'the report of a valid journal differs from the report without checking options',
@@ -1092,14 +1245,33 @@ def oracle(items, roots, status, out, msgs, nerr, stderr_text, opts, warns=(), b
                 owner = k
                 break
         if owner is None:
-            stray_msgs.append(m)
+            if m not in bom_msgs:
+                stray_msgs.append(m)
         else:
             hits.setdefault(owner, []).append(m)
+    # an over-long line is refused: the message must name that line
+    early = []
+    for k, it in enumerate(faulty):
+        if it['faults'] == [K_LONG] and not hits.get(k):
+            for m in stray_msgs:
+                if m['kind'] == K_LONG and m['file'] == it['file'] and m['line'] == it['first'] - 1:
+                    early.append((k, m))
+                    break
+    for k, m in early:
+        it = faulty[k]
+        stray_msgs.remove(m)
+        hits[k] = [dict(m, line=it['first'])]          # (reported here, not twice)
+        v.append(('overlong-line:located-one-line-early', 'the over-long line %d of %s is refused with a message that names line %d'
+                  % (it['first'], it['file'], m['line']), '%s:%s' % (m['file'], m['line']), 'line %d' % it['first']))
     for k, it in enumerate(faulty):
         got = hits.get(k, [])
         names = '+'.join(KNAME[f] for f in it['faults'])
         if not got:
             key = 'fault-unreported:in-later-f-file' if it.get('root_index', 0) > 0 else 'fault-unreported:' + names
+            if it.get('after_long'):
+                key = 'fault-unreported:after-overlong-line'
+            elif it.get('blank_comment_lines_above'):
+                key = 'fault-unreported:below-comment-block-with-empty-lines'
             if all(f in NAMEK for f in it['faults']) and any(inside(w, it) for w in warns):
                 key = 'undeclared-name-only-warned-under-pedantic:' + mode
             v.append((key, 'the invalid item at %s lines %d-%d (%s; options: %s) got no Error: message naming that file and a line of the item'
@@ -1113,7 +1285,11 @@ def oracle(items, roots, status, out, msgs, nerr, stderr_text, opts, warns=(), b
                 v.append(('line-range-outside-item:' + names, 'line range %s is not inside the item %d-%d' % (g['range'], it['first'], it['last']),
                           str(g['range']), 'a range inside the item'))
     for m in stray_msgs:
-        v.append(('message-not-located-in-an-invalid-item', 'message %r at %s line %s is not inside any invalid item (options: %s)'
+        key = 'message-not-located-in-an-invalid-item'
+        below = [it['blank_comment_lines_above'] for it in faulty if it['file'] == m['file'] and it.get('blank_comment_lines_above')]
+        if below and m['line'] is not None and any(inside(dict(m, line=m['line'] + k), it) for it in faulty for k in set(below)):
+            key += ':line-number-short-by-the-empty-lines-of-comment-blocks-above'
+        v.append((key, 'message %r at %s line %s is not inside any invalid item (options: %s)'
                   % (m['text'], m['file'], m['line'], mode), '%s:%s' % (m['file'], m['line']), 'messages only for invalid items'))
     if nerr != len(msgs):
         v.append(('unlocated-error', 'an Error: line without a file/line location', 'errors=%d located=%d' % (nerr, len(msgs)), 'every error located'))
@@ -1136,7 +1312,11 @@ def root_index_of(c):
 
 def case_record(c):
     return dict(files=c.texts, roots=[r.name for r in c.roots], args=c.args, cmd=(['--master-account', c.master] if c.master else []) + c.cmd, init=c.init, env=c.env,
-                opts=c.opts, items=c.items, mode=c.mode)
+                opts=c.opts, items=c.items, mode=c.mode, extra=case_extra(c))
+
+
+def case_extra(c):
+    return dict(bom_first={k: list(v) for k, v in c.bom_first.items()}, comment_lines={k: sorted(v) for k, v in c.comment_lines.items()})
 
 
 def strip_ranges(ms):
@@ -1185,7 +1365,7 @@ def evaluate(ctx, res, cases, tagname):
         ridx = root_index_of(c)
         for it in c.items:
             it['root_index'] = ridx[it['file']]
-        for key, desc, obs, req in oracle(c.items, [r.name for r in c.roots], st, out, msgs, nerr, err, c.opts, warns, base):
+        for key, desc, obs, req in oracle(c.items, [r.name for r in c.roots], st, out, msgs, nerr, err, c.opts, warns, base, case_extra(c)):
             res.violations.append(dict(key=key, desc=desc, case=case_record(c), observed=obs, required=req))
         # bookkeeping
         res.count('options:' + c.mode)
@@ -1200,6 +1380,16 @@ def evaluate(ctx, res, cases, tagname):
             if it.get('prefix') and it['tag'] == 'xact':
                 res.count('transaction-inside-apply-account:%s' % ('invalid' if it['faults'] else 'valid'))
         res.count('files:%d' % len(c.files))
+        ncb = sum(1 for f in c.files for e in f.entries if e.comment is not None)
+        res.count('comment-blocks:%s' % (ncb if ncb < 3 else '3+'))
+        if any(e.comment is not None and 'e' in e.comment[1] for f in c.files for e in f.entries) and c.nfaults:
+            res.count('comment-block-with-empty-lines-and-faults')
+        if any(e.comment is not None and not e.comment[0] for f in c.files for e in f.entries):
+            res.count('comment-block-unclosed')
+        if c.bom_first:
+            res.count('files-with-byte-order-mark:%d' % len(c.bom_first))
+        if any(it['tag'] == 'long' for it in c.items):
+            res.count('over-long-line:%s' % ('items-after-it' if any(it.get('after_long') for it in c.items) else 'last'))
         res.count('roots:%d' % len(c.roots))
         for it in c.items:
             for k in it['faults']:
@@ -1257,6 +1447,8 @@ def run(ctx, n_override=None):
                 'costs @ @@ (@), value-expression amounts, commodity-less and quoted amounts, balance assignments and assertions, virtual ( ) and [ ] postings, '
                 '`; Payee:` tags on the posting line or the next) with declared and undeclared names; each journal is read under a subset of --strict --pedantic --permissive --check-payees '
                 '(all 16 occur), each option given on the command line, in an init file or through LEDGER_* in the environment; '
+                '`comment` / `test` blocks (0-12 swallowed lines: empty, blanks, text that looks like transactions / directives / indented end markers; closed by `end comment` / `end test` or by the end of the file) '
+                'in -f files and included files, in front of / between / behind invalid items; unindented lines of 4200-20000 bytes with items after them; files starting with a UTF-8 byte-order mark; '
                 'non-trivial = at least one injected fault, expected warning or include; distinct by options + shape')
     n = n_override or ctx.scale(2500, 20000)
     cases = []
@@ -1276,6 +1468,17 @@ def run(ctx, n_override=None):
     # directed: several -f files with faults in a later one
     for k in range(ctx.scale(6, 40)):
         cases.append(build_case(rng, n + len(bigs) + k, multi=rng.choice([2, 3])))
+    # directed: comment / test blocks (empty, blank and text lines inside; closed by either marker or by the end of the
+    # file; in -f files and in included files) in front of, between and behind invalid items
+    for k in range(ctx.scale(120, 1200)):
+        cases.append(build_case(rng, 200000 + k, comments=rng.choice([0.5, 0.9])))
+    none = dict(strict=False, pedantic=False, permissive=False, check_payees=False)
+    # directed: lines that do not fit the line buffer, with items after them
+    for k in range(ctx.scale(40, 400)):
+        cases.append(build_case(rng, 210000 + k, opts=none, long_lines=True, comments=rng.choice([0, 0.4])))
+    # directed: files that start with a UTF-8 byte-order mark
+    for k in range(ctx.scale(80, 600)):
+        cases.append(build_case(rng, 220000 + k, bom=True, multi=rng.choice([None, 2, 3, 3]), comments=rng.choice([0, 0.3])))
     step = 400
     for a in range(0, len(cases), step):
         evaluate(ctx, res, cases[a:a + step], 'c')
@@ -1288,6 +1491,8 @@ def run(ctx, n_override=None):
         res.extra['generated_tables']['Gen/CheckingStyle.v'] = [l for l in gen.split('\n') if l.startswith('Definition') or 'precedence' in l]
         gen = open(os.path.join(lib.COQ, 'Gen', 'NameChecks.v')).read()
         res.extra['generated_tables']['Gen/NameChecks.v'] = [l for l in gen.split('\n') if l.startswith('Definition')]
+        gen = open(os.path.join(lib.COQ, 'Gen', 'LineReader.v')).read()
+        res.extra['generated_tables']['Gen/LineReader.v'] = [l for l in gen.split('\n') if l.startswith('Definition')]
     except OSError:
         pass
     return res
@@ -1320,7 +1525,7 @@ def replay(ctx, obj):
     msgs, nerr, junk, warns = parse_stderr(err, cdir)
     print('replay: ledger %s (init file: %s; environment: %s) -> status %s, %d Error: lines, %d Warning: lines, %d bytes on stdout'
           % (' '.join(case['args']), ' '.join(case.get('init') or []) or '-', case.get('env') or '-', st, nerr, len(warns), len(out)))
-    for key, desc, obs, req in oracle(case['items'], case['roots'], st, out, msgs, nerr, err, opts, warns, base):
+    for key, desc, obs, req in oracle(case['items'], case['roots'], st, out, msgs, nerr, err, opts, warns, base, case.get('extra')):
         print('replay: %s: %s' % (key, desc))
         if key == obj.get('key'):
             res.violations.append(dict(key=key, desc=desc))
